@@ -46,8 +46,9 @@ let parse_op (cnt : int) (cur : int option list) (tok : string) : int op option 
   | ["insl"; j; vs] -> Some (OInsertRange (n (int_of_string j), ints vs))       (* initializer list = forward range *)
   | ["sc0"; c] -> Some (OSetCount (n (int_of_string c), ArgVal 0))     (* SetCount(n): value-initialised items *)
   | ["rm1"; j] -> Some (ORemove (n (int_of_string j), n 1))
-  | ["cpc"] | ["cpa"] -> Some (OAssignRange (Stdlib.List.map (function Some v -> v | None -> -1) cur))
-  | ["mvc"] | ["swp"; _; _] -> None                                      (* identity on sequence, capacity, allocations *)
+  | ["cpc"] | ["cpa"] -> Some OCopyRound                                 (* copy construction / assignment + Swap *)
+  | ["mvc"] -> Some OMoveRound                                           (* move construction + move assignment *)
+  | ["swp"; _; _] -> None                                                (* swap there and back: identity *)
   | _ -> Some (parse_op0 cnt tok)
 
 let () = iter_lines (fun line ->
@@ -56,6 +57,28 @@ let () = iter_lines (fun line ->
     (match Gen_Grow.coq_GrowCapacity (gor = "1") (z_of_string cap) (z_of_string mn) (z_of_string cause) (lin = "1") with
      | GenPrelude.Ok r -> print_endline (string_of_z r)
      | GenPrelude.Stuck -> print_endline "Stuck" | GenPrelude.Fuel -> print_endline "Fuel" | GenPrelude.Exn -> print_endline "Exn")
+  | ["gl"; fn; ns; caps; idx; cnts; iis] ->
+    (* the GENERATED loops of ArrayShifter (Gen_ShiftLoops.v) on the cell function: items 10..10+n-1, an external object of value 5 at
+       cell cap+5 *)
+    let ni = int_of_string ns and ci = int_of_string caps in
+    let items = fun j -> let k = int_of_z j in if k >= 0 && k < ni then z_of_int (10 + k) else if k = ci + 5 then z_of_int 5 else z_of_int 0 in
+    let zn = z_of_string ns and zc = z_of_string caps and zi = z_of_string idx and zk = z_of_string cnts in
+    let item_idx = if int_of_string iis < ni then z_of_string iis else z_of_int (ci + 5) in
+    let show res = match res with
+      | GenPrelude.Ok ((_, items'), cnt') ->
+        let m = int_of_z cnt' in
+        "ok [" ^ String.concat "," (Stdlib.List.init m (fun k -> string_of_z (items' (z_of_int k)))) ^ "]"
+      | GenPrelude.Stuck -> "abort" | GenPrelude.Exn -> "exception" | GenPrelude.Fuel -> "fuel" in
+    print_endline (match fn with
+      | "remove" -> show (Gen_ShiftLoops.coq_ShiftRemove items zn zc zi zk)
+      | "insert" -> show (Gen_ShiftLoops.coq_ShiftInsert items zn zc zi zk item_idx)
+      | _ -> "?")
+  | ["gd"; "indexof"; ns; _caps; idx; _] ->
+    (* generated Array::pvIndexOf: the buffer starts at address 1000 (in items); element i, one past the end, or an object elsewhere *)
+    let ni = int_of_string ns and ii = int_of_string idx in
+    let ptr = if ii <= ni && (ii < ni || ni > 0 || int_of_string _caps > 0) then 1000 + ii else 7 in
+    let r = Gen_IndexOf.pvIndexOf (z_of_int 1000) (z_of_string ns) (z_of_int ptr) in
+    print_endline (if string_of_z r = "18446744073709551615" then "max" else string_of_z r)
   | ["gd"; fn; ns; caps; idx; cnts] ->
     (* the GENERATED guards (Gen_Guards*.v) decide accept / abort / exception; Array::Insert = prefix, then (after the
        growth the prefix asks for) the guard of InsertNogrow *)
